@@ -21,12 +21,19 @@ deriving Inhabited
 /-- a numeral used as a value is the integer value `n` -/
 instance (k : Nat) : OfNat Val k := ⟨.n k⟩
 
-partial def Val.show : Val → String
-  | .none => "none"
-  | .n x => s!"n{x}"
-  | .pair i v => s!"p({i},{v.show})"
-  | .list vs => "l[" ++ ",".intercalate (vs.map Val.show) ++ "]"
-  | .atom k x => s!"a{k}.{x}"
+mutual
+  def Val.show : Val → String
+    | .none => "none"
+    | .n x => s!"n{x}"
+    | .pair i v => s!"p({i},{v.show})"
+    | .list vs => "l[" ++ Val.showList vs ++ "]"
+    | .atom k x => s!"a{k}.{x}"
+  /-- comma-separated -/
+  def Val.showList : List Val → String
+    | [] => ""
+    | [v] => v.show
+    | v :: w :: r => v.show ++ "," ++ Val.showList (w :: r)
+end
 
 inductive Act
   | emit (tgt kind delay : Nat) (daemon : Bool) (hook : Nat)   -- hook = 0: none; h>0: completion hook h attached
